@@ -31,57 +31,7 @@ type c15Case struct {
 }
 
 // lineProblem re-states the property for one delivered line.
-func lineProblem(data string) string {
-	if len(data) > 510 {
-		return fmt.Sprintf("is %d bytes long (limit 510)", len(data))
-	}
-	for k := 0; k < len(data); k++ {
-		switch data[k] {
-		case '\n':
-			return fmt.Sprintf("contains LF at byte %d", k)
-		case '\r':
-			return fmt.Sprintf("contains CR at byte %d", k)
-		case 0:
-			return fmt.Sprintf("contains NUL at byte %d", k)
-		}
-	}
-	rest := data
-	hasPrefix := false
-	if strings.HasPrefix(rest, ":") {
-		sp := strings.IndexByte(rest, ' ')
-		if sp < 2 {
-			return "has an empty prefix or nothing after it"
-		}
-		hasPrefix = true
-		rest = rest[sp+1:]
-	}
-	cmd := rest
-	if sp := strings.IndexByte(rest, ' '); sp >= 0 {
-		cmd = rest[:sp]
-	}
-	if cmd == "" {
-		return "has no command"
-	}
-	letters, digits := true, true
-	for _, c := range []byte(cmd) {
-		if !(c >= 'A' && c <= 'Z' || c >= 'a' && c <= 'z') {
-			letters = false
-		}
-		if !(c >= '0' && c <= '9') {
-			digits = false
-		}
-	}
-	if !letters && !(digits && len(cmd) == 3) {
-		return fmt.Sprintf("has command %q which is neither a word nor a three-digit numeric", cmd)
-	}
-	switch strings.ToUpper(cmd) {
-	case "PRIVMSG", "NOTICE", "TOPIC", "PART", "QUIT", "KICK", "JOIN", "INVITE", "KILL":
-		if !hasPrefix {
-			return "relays a client command without a prefix"
-		}
-	}
-	return ""
-}
+func lineProblem(data string) string { return vh.LineProblem(data) }
 
 func problemClass(p string) string {
 	f := strings.Fields(p)
@@ -187,7 +137,7 @@ func c15Execute(c *c15Case, base string, rec *vh.Recorder) (fail *vh.Failure, la
 	delivered := 0
 	toOthers := false
 	for idx := uint64(1); idx <= last; idx++ {
-		msgs, ok := outputStream.Get(robust.Id{Id: idx})
+		msgs, ok := outputStream.Get(robust.Id{Id: robust.IdFromRaftIndex(idx)})
 		if !ok {
 			continue
 		}
